@@ -46,8 +46,6 @@ def _check_bounds(mn, mx, where):
         raise SpecError(f"minimum {mn!r} is not a non-negative integer in {where!r}")
     if mx is not None and (not _is_count(mx) or mx < mn):
         raise SpecError(f"maximum {mx!r} is not null or an integer >= minimum in {where!r}")
-    if mx == 0:
-        raise SpecError(f"maximum 0 in {where!r}")
 
 
 def _parse_item(x):
